@@ -813,6 +813,161 @@ class Gen:
             p = ('choice', [('seq', [p, ('bool', False)]), p])
         return p
 
+    # ---- templates: nested text windows (sub / til / split inside sub / til / split); after the INNER window is left - by a
+    # match or by a failure that an enclosing choice / opt / not recovers from - matching goes on inside the ENCLOSING window
+    # with patterns whose result depends on where that window ends
+    def window_sensor(self):
+        r = self.r
+        k = r.below(12)
+        if k <= 1:
+            return ('capture', 0, ('to', ('int', -1)))
+        if k == 2:
+            return ('int', -1)
+        if k <= 4:
+            return ('capture', self.tag(), ('any', ('int', 1)))
+        if k == 5:
+            return ('capture', 0, ('some', ('int', 1)))
+        if k == 6:
+            return ('str', self.lit(1) + self.lit(1))          # a literal that may extend past the window
+        if k == 7:
+            return ('seq', [('any', ('int', 1)), ('position', 0)])
+        if k == 8:
+            return ('capture', 0, ('thru', ('int', -1)))
+        if k == 9:
+            return ('seq', [('int', r.range(1, 2)), ('not', ('int', 1))])
+        if k == 10:
+            return ('capture', 0, ('between', 0, 3, self.guard_atom()))
+        return ('seq', [('opt', ('int', 1)), ('int', -1), ('position', 0)])
+
+    def window_bound(self):
+        """the pattern that determines a window: (sub BOUND ..) / separator / terminus"""
+        r = self.r
+        k = r.below(8)
+        if k <= 1:
+            return ('int', r.range(1, 4))
+        if k == 2:
+            return ('str', self.lit(1))
+        if k == 3:
+            return ('to', ('str', self.lit(1)))
+        if k == 4:
+            return ('thru', ('str', self.lit(1)))
+        if k == 5:
+            return ('seq', [('int', 1), ('int', 1)])
+        if k == 6:
+            return ('some', self.guard_atom())
+        return ('any', ('int', 1))
+
+    def window_of(self, body, kinds=('sub', 'sub', 'sub', 'til', 'split')):
+        r = self.r
+        k = r.choice(list(kinds))
+        if k == 'sub':
+            return ('sub', self.window_bound(), body)
+        sep = ('str', r.choice([b"b", b"1", b"\n", b"a", b"b1"])) if r.chance(3, 4) else self.guard_atom()
+        return (k, sep, body)
+
+    def windows(self):
+        r = self.r
+        env = dict(refs=[], guarded=[], acc=False, dag=[])
+        # the inner window: usually small; its body matches, fails, or captures
+        ib = r.choice([('int', 1), ('int', r.range(0, 2)), ('str', self.lit(1)), ('bool', False), ('capture', 0, ('any', ('int', 1))),
+                       ('seq', [('int', 1), ('int', -1)]), ('str', b"\x00x"), self.window_sensor()])
+        inner = self.window_of(ib)
+        if r.chance(1, 5):                                      # three levels
+            inner = self.window_of(('seq', [inner, self.window_sensor()]))
+        k = r.below(8)
+        if k <= 2:
+            mid = [inner]
+        elif k == 3:
+            mid = [('choice', [inner, ('bool', True)])]
+        elif k == 4:
+            mid = [('opt', inner)]
+        elif k == 5:
+            mid = [('not', inner)] if r.chance(1, 2) else [('ifnot', inner, ('bool', True))]
+        elif k == 6:
+            mid = [('any', inner)] if r.chance(1, 2) else [('between', 0, 2, inner)]
+        else:
+            mid = [self.probe(), inner]
+        body = ('seq', mid + [self.window_sensor() for _ in range(r.range(1, 2))])
+        if r.chance(1, 6):
+            body = ('choice', [('seq', [inner, ('bool', False)]), self.window_sensor()])
+        p = self.window_of(body)
+        k = r.below(8)
+        if k == 0:
+            p = ('accumulate', self.tag(), p)
+        elif k == 1:
+            p = ('group', 0, p)
+        elif k == 2:
+            p = ('seq', [p, self.window_sensor()])
+        elif k == 3:
+            p = ('seq', [('opt', ('int', 1)), p, ('position', 0)])
+        elif k == 4:
+            p = ('any', p)
+        return p
+
+    # ---- templates: a TAGGED capturing combinator nested inside another capture mode (accumulate in accumulate, directly,
+    # under repetition, through a named rule ...) and a later back-reference / back-match that reads the tag
+    def tagged_nest(self):
+        r = self.r
+        t = r.range(1, 3)
+        atom = lambda: r.choice([('str', self.lit(1)), ('int', 1), ('range', [(97, 122)]), ('range', [(48, 57), (97, 98)]), ('set', b"ab")])
+        cap = lambda: ('capture', 0, atom())
+        k = r.below(10)
+        if k <= 4:
+            ib = r.choice([cap(), ('seq', [cap(), cap()]), ('some', cap()), ('seq', [cap(), ('position', 0)]), ('capture', 0, ('some', atom()))])
+            inner = ('accumulate', t, ib)
+        elif k == 5:
+            inner = ('group', t, ('seq', [cap(), cap()]))
+        elif k == 6:
+            inner = ('capture', t, ('some', atom()))
+        elif k == 7:
+            inner = ('replace', t, r.choice([('fn', 'f-cat'), b"ab", 7]), cap())
+        elif k == 8:
+            inner = ('number', 0, t, ('some', ('range', [(48, 57)])))
+        else:
+            inner = ('accumulate', t, ('accumulate', 0, cap()))
+        use_rule = r.chance(1, 5)
+        site = ('ref', 'p') if use_rule else inner
+        k = r.below(8)
+        if k == 0:
+            site = ('some', site)
+        elif k == 1:
+            site = ('opt', site)
+        elif k == 2:
+            site = ('choice', [('seq', [site, ('bool', False)]), site])
+        elif k == 3:
+            site = ('seq', [cap(), site])
+        elif k == 4:
+            site = ('between', 1, 2, site)
+        k = r.below(6)
+        if k <= 2:
+            reader = [('backref', t, self.tag() if r.chance(1, 3) else 0)]
+        elif k == 3:
+            reader = [('backmatch', t)]
+        elif k == 4:
+            reader = [('str', self.lit(1)), ('backmatch', t)]
+        else:
+            reader = [('backref', t, 0), ('backmatch', t)]
+        inside = r.chance(2, 3)                                   # reader inside the outer mode, or after it
+        body = ('seq', [site] + (reader if inside else []) + ([cap()] if r.chance(1, 3) else []))
+        k = r.below(8)
+        if k <= 3:
+            outer = ('accumulate', self.tag(), body)
+        elif k == 4:
+            outer = ('accumulate', 0, ('accumulate', 0, body))
+        elif k == 5:
+            outer = ('group', self.tag(), ('accumulate', 0, body))
+        elif k == 6:
+            outer = ('accumulate', 0, ('seq', [('group', 0, cap()), body]))
+        else:
+            outer = ('replace', 0, ('fn', 'f-cat'), ('accumulate', 0, body))
+        items = [outer] + ([] if inside else reader)
+        if r.chance(1, 4):                                        # an older capture under the same tag (a stale value to pick up)
+            items = [('capture', t, atom())] + items
+        p = ('seq', items) if len(items) > 1 else outer
+        if use_rule:
+            return ('grammar', [("main", p), ("p", inner)])
+        return p
+
     # ---- templates: nested grammars, shadowed names, outer rules reached from inner grammars, recursion through them
     def scoping(self):
         r = self.r
